@@ -53,7 +53,9 @@ type label struct {
 // the first four bodies are in the quick tier: plain name, rooted, directory-only, and a wildcard
 // followed by a negation of one of its matches (the last matching line of a file decides)
 // (the rooted pattern is written with CRLF line ends: git strips the CR, so must the scanner)
-var gitBodies = []string{"b.txt\n", "/a\r\n", "a/\n", "*.txt\n!b.txt\n", "*.txt\n", "# c\n\nb.txt", "/a\n", "*.txt\r\n!b.txt\r\n"}
+// (a leading space is part of a pattern: " -x" and " #c" name files that start with a space, they neither
+// ignore "-x" nor are they comments)
+var gitBodies = []string{"b.txt\n", "/a\r\n", "a/\n -x\n #c\n", "*.txt\n!b.txt\n", "*.txt\n", "# c\n\nb.txt", "/a\n", "*.txt\r\n!b.txt\r\n"}
 
 func labels(thorough bool) []label {
 	ls := []label{
@@ -698,6 +700,7 @@ type outcome struct {
 	pkgs     []string
 	statuses []string
 	status   string
+	absBase  string // host path of the scan root without a trailing separator ("/r", or "" for the root /)
 }
 
 func runImpl(c *caseT) (outcome, any) {
@@ -722,16 +725,25 @@ func runImpl(c *caseT) (outcome, any) {
 		rootPath = "/r"
 		// the root itself is spelled in turn clean and in four unclean but equivalent ways (the
 		// requested and skipped paths stay clean): the scan must not depend on the spelling
-		spell := []string{"/r", "/r/", "/r/.", "/r/x/..", "//r"}
+		spell := []string{"/r", "/r/", "/r/.", "/r/x/..", "//r", "/"}
 		h := 0
 		for _, ch := range c.Tree + c.Opts.active() + strings.Join(c.Opts.Paths, ",") + strings.Join(c.Opts.Skip, ",") {
 			h = (h*31 + int(ch)) % 1000003
 		}
 		scanRootPath = spell[h%len(spell)]
+		if scanRootPath == "/" {
+			// the file-system root itself as scan root: requested and skipped paths are /<path>
+			rootPath = ""
+		}
+		out.absBase = rootPath
 		abs = func(ps []string) []string {
 			var out []string
 			for _, p := range ps {
 				if p == "." {
+					if rootPath == "" {
+						out = append(out, "/")
+						continue
+					}
 					out = append(out, rootPath)
 				} else {
 					out = append(out, rootPath+"/"+p)
@@ -896,7 +908,7 @@ func check(c *caseT) (kind, detail string, nontrivial bool) {
 		ex, p, _ := strings.Cut(cl, "|")
 		loc := p
 		if c.Opts.RealRoot && c.Opts.AbsPath {
-			loc = "/r/" + p
+			loc = out.absBase + "/" + p
 		}
 		wantPk = append(wantPk, ex+"::"+ex+"|"+p+"@"+loc)
 	}
@@ -1048,7 +1060,7 @@ func main() {
 	r.Set("bound", map[string]any{"max_nodes_completed": completedNodes, "max_option_deviations": maxDev, "extractor_sets": len(exSets)})
 	r.Assume("reference dispatch model (this file, ~200 lines) states git's .gitignore semantics for the 5-pattern alphabet and the skip rules of the property text")
 	r.Assume("regular-expression and glob *matching* are taken from the same libraries the implementation uses; only the dispatch logic is under test")
-	r.Finish(fmt.Sprintf("every tree with <=%d labelled nodes (names a, a.d, b.txt, 'd e', -x, .gitignore(8 bodies incl. a negation and CRLF line ends; 4 in quick), pkg.json; dirs, files of size 0/1/5, exec bit, symlinks to file/dir/dangling, named pipe) x every option vector with <=%d deviations from the defaults (skip list, regex, glob, gitignore, requested paths incl. dir+file and '.', sub-dir cut-off, max size 1/5, symlinks, absolute paths, ReadDirFile on/off, virtual root vs. root with a host path - spelled /r, /r/, /r/., /r/x/.., //r in rotation - and absolute skip/request paths) x %d extractor sets (quick: 2 of them on 4-node trees); Scanner.Scan over memfs vs reference dispatch model (trees <=3 nodes: scanned twice with the same configuration and plugin instances, second scan must equal the first); plus two virtual roots with different content (the tree and the tree without its top-level .gitignore / with other sizes, both orders) under every option vector with <=2 deviations, each root judged by the model on its own; plus EnableRequiredExtractors for every list of 1..3 detectors requiring the same / different / no extractors; plus one directory of W entries for every W<=%d and 2^k-1,2^k,2^k+1,1.5*2^k up to %d x 3 placements x 5 directory-listing behaviours (ReadDir, ReadDirFile full batches, short batches of 1/3/100); non-trivial = some option active and >=1 extraction expected", maxNodes, maxDev, len(exSets), ev.Pick(r, 40, 300), ev.Pick(r, 1024, 4096)), completedNodes == maxNodes)
+	r.Finish(fmt.Sprintf("every tree with <=%d labelled nodes (names a, a.d, b.txt, 'd e', -x, .gitignore(8 bodies incl. a negation and CRLF line ends; 4 in quick), pkg.json; dirs, files of size 0/1/5, exec bit, symlinks to file/dir/dangling, named pipe) x every option vector with <=%d deviations from the defaults (skip list, regex, glob, gitignore, requested paths incl. dir+file and '.', sub-dir cut-off, max size 1/5, symlinks, absolute paths, ReadDirFile on/off, virtual root vs. root with a host path - spelled /r, /r/, /r/., /r/x/.., //r, or being / itself, in rotation - and absolute skip/request paths) x %d extractor sets (quick: 2 of them on 4-node trees); Scanner.Scan over memfs vs reference dispatch model (trees <=3 nodes: scanned twice with the same configuration and plugin instances, second scan must equal the first); plus two virtual roots with different content (the tree and the tree without its top-level .gitignore / with other sizes, both orders) under every option vector with <=2 deviations, each root judged by the model on its own; plus EnableRequiredExtractors for every list of 1..3 detectors requiring the same / different / no extractors; plus one directory of W entries for every W<=%d and 2^k-1,2^k,2^k+1,1.5*2^k up to %d x 3 placements x 5 directory-listing behaviours (ReadDir, ReadDirFile full batches, short batches of 1/3/100); non-trivial = some option active and >=1 extraction expected", maxNodes, maxDev, len(exSets), ev.Pick(r, 40, 300), ev.Pick(r, 1024, 4096)), completedNodes == maxNodes)
 }
 
 func replay(r *ev.Run, p string) {
